@@ -162,6 +162,11 @@ def _double(x):
   return x * 2
 
 
+def slow_double(x, delay):
+  _real_time.sleep(delay)
+  return x * 2
+
+
 def _inc(x):
   return x + 1
 
